@@ -5,6 +5,8 @@
 #include <stdio.h>
 #include <stdlib.h>
 #include <string.h>
+#include <signal.h>
+#include <unistd.h>
 struct CxMem;
 extern const struct CxMem hx_def;
 #define USUAL_ALLOC (&hx_def)
@@ -267,7 +269,7 @@ static void dump(long rc)
 		first = 0;
 		int_entry(nm, slots[s].ptr);
 	}
-	printf(" inv=1111 oof=0\n");
+	printf(" inv=1111 oof=00\n");
 }
 
 /* -------------------------------------------------------------------------------- ops */
@@ -356,7 +358,11 @@ static void do_line(char *line)
 
 	evlen = 0; evlog[0] = 0; n_ok = n_no = 0;
 	if (n == 0) BAD;
-	if (strcmp(w[0], "#case") == 0 && n == 1) { reset_case(); printf("#case\n"); fflush(stdout); return; }
+	if (strcmp(w[0], "#case") == 0 && n == 1) {
+		reset_case(); printf("#case\n"); fflush(stdout);
+		alarm(CASE_SECONDS);
+		return;
+	}
 	if (strcmp(w[0], "alloc") == 0 && n >= 5) {
 		char *e; long sl = strtol(w[1], &e, 10); size_t cx;
 		if (*e || e == w[1] || sl < 0 || sl >= MAXSLOT) BAD;
@@ -510,6 +516,17 @@ static void do_line(char *line)
 	BAD;
 }
 
+/* watchdog: a history that does not finish (a cycle built by a broken library makes talloc loop for
+ * ever) is a result, not a reason to wait */
+#define CASE_SECONDS 20
+static void on_alarm(int sig)
+{
+	static const char msg[] = "HANG\n";
+	fflush(stdout);
+	if (write(1, msg, sizeof(msg) - 1) < 0) _exit(4);
+	_exit(3);
+}
+
 static void on_abort(const char *reason)
 {
 	printf("ABORT %s\n", reason);
@@ -523,6 +540,7 @@ int main(void)
 	setvbuf(stdout, obuf, _IOFBF, sizeof(obuf));
 	talloc_set_log_fn(NULL);
 	talloc_set_abort_fn(on_abort);
+	signal(SIGALRM, on_alarm);
 	while ((line = hc_line()) != NULL) {
 		do_line(line);
 	}
